@@ -9,6 +9,7 @@ import (
 	"math/rand"
 	"os"
 	"os/signal"
+	"path/filepath"
 	"runtime"
 	"sort"
 	"strings"
@@ -26,6 +27,7 @@ import (
 
 	"verif/internal/fw"
 	"verif/internal/gen"
+	"verif/internal/rio"
 )
 
 // C11 — I/O failures during merge, compaction and flush are reported, never absorbed.
@@ -47,7 +49,7 @@ func init() {
 		Meta: func(tier string) fw.Meta {
 			na, nb := c11Sizes(tier)
 			return fw.Meta{N: na + nb, Level: "fault_enumeration", Chunk: 8, CaseTimeoutS: 240, MinNT: 60,
-				Rule:        "(a) one case = one seeded input set (1..4 ascending inputs, overlapping for the compacting merges, disjoint for Merge) run through Merge / MergeCompact with both reductions / MergeCompactIterator: single fault at EVERY Next position of EVERY input (variants: fail-then-continue, fail-repeatedly, fail-then-end) and at EVERY WriteNext position, plus sampled double faults; oracle: error returned, or output identical to the fault-free output. (b) one case = one SimpleDB scenario in a sub-process (flush of a memstore, one compaction cycle over 2..4 tables, or the flush that Open performs for the replayed WAL of a hand-placed kill image) with one fault: k-th data append / k-th index append of the stream writer, p-th record of an input iterator, or RLIMIT_FSIZE = L bytes (kernel-level EFBIG at the first write crossing L); oracle: process stopped or error returned, never success with reads differing from the model; after a reported error the same process and a fresh process must still read the model. evaluations = fault runs; non-trivial = fault actually reached; distinct by (input hash, fault)",
+				Rule:        "(a) one case = one seeded input set (1..4 ascending inputs, overlapping for the compacting merges, disjoint for Merge) run through Merge / MergeCompact with both reductions / MergeCompactIterator: single fault at EVERY Next position of EVERY input (variants: fail-then-continue, fail-repeatedly, fail-then-end) and at EVERY WriteNext position, plus sampled double faults; every 6th case instead merges REAL tables (reader.Scan, no validation on load) one of whose data files ends early at every record boundary and inside records; oracle: error returned, or output identical to the fault-free output. (b) one case = one SimpleDB scenario in a sub-process (flush of a memstore, one compaction cycle over 2..4 tables, or the flush that Open performs for the replayed WAL of a hand-placed kill image) with one fault: k-th data append / k-th index append of the stream writer, p-th record of an input iterator, or RLIMIT_FSIZE = L bytes (kernel-level EFBIG at the first write crossing L); oracle: process stopped or error returned, never success with reads differing from the model; after a reported error the same process and a fresh process must still read the model. evaluations = fault runs; non-trivial = fault actually reached; distinct by (input hash, fault)",
 				MinObs:      map[string]int64{"merger_fault_runs": 3000, "merger_faults_reached": 2000, "merger_errors_reported": 1000, "db_fault_scenarios": 100, "db_fault_reached": 40, "db_process_stopped_or_error": 30, "rlimit_faults_reached": 5},
 				Assumptions: []string{"hook-level failures are clean failures; RLIMIT_FSIZE failures are real EFBIG results of write(2) through the real buffered writers", "a flush failure ends the process (log.Panicf) — the recoverability of what it leaves behind belongs to C02"},
 			}
@@ -197,6 +199,10 @@ func runC11(c *fw.Case) {
 		c11DB(c, c.Idx-na)
 		return
 	}
+	if c.Idx%6 == 5 {
+		c11RealInputs(c)
+		return
+	}
 	r := c.R
 	op := c.Idx % 4
 	k := 1 + r.Intn(4)
@@ -286,6 +292,114 @@ func runC11(c *fw.Case) {
 		}
 		c.Sample(map[string]any{"op": opName, "input_lengths": lens, "fault_runs": units, "fault_free_output": len(base)})
 	}
+}
+
+// c11RealInputs: the inputs are real tables read through reader.Scan(); the fault is a data file that ends early
+// (at every record boundary and inside records) under a reader that does not validate on load. The merge must report
+// an error or produce the fault-free output.
+func c11RealInputs(c *fw.Case) {
+	r := c.R
+	nt := 2 + r.Intn(2)
+	universe := gen.AscendingKeys(r, 6+r.Intn(14), 0)
+	var dirs []string
+	for t := 0; t < nt; t++ {
+		var kvs []kv
+		for _, k := range universe {
+			if r.Intn(3) > 0 {
+				var v []byte
+				if r.Intn(6) > 0 {
+					v = []byte(fmt.Sprintf("t%d-%x-%s", t, k, strings.Repeat("q", r.Intn(20))))
+				}
+				kvs = append(kvs, kv{k, v})
+				c.HashAdd(t, k, v)
+			}
+		}
+		d := filepath.Join(c.Dir, fmt.Sprintf("in%d", t))
+		if err := c08WriteTable(d, kvs); err != nil {
+			c.Violate("harness/write-table", "%v", err)
+			return
+		}
+		dirs = append(dirs, d)
+	}
+	run := func() ([]kv, error) {
+		var its []sstables.SSTableMergeIteratorContext
+		var rds []sstables.SSTableReaderI
+		defer func() {
+			for _, rd := range rds {
+				_ = rd.Close()
+			}
+		}()
+		for i, d := range dirs {
+			rd, err := sstables.NewSSTableReader(sstables.ReadBasePath(d), sstables.ReadWithKeyComparator(skiplist.BytesComparator{}), sstables.SkipHashCheckOnLoad())
+			if err != nil {
+				return nil, fmt.Errorf("open: %w", err)
+			}
+			rds = append(rds, rd)
+			sc, err := rd.Scan()
+			if err != nil {
+				return nil, fmt.Errorf("scan: %w", err)
+			}
+			its = append(its, sstables.NewMergeIteratorContext(i, sc))
+		}
+		reached := false
+		w := &c11Writer{failAt: map[int]bool{}, reached: &reached}
+		err := sstables.NewSSTableMerger(skiplist.BytesComparator{}).MergeCompact(its, w, sstables.ScanReduceLatestWinsSkipTombstones)
+		return w.out, err
+	}
+	base, err := run()
+	if err != nil {
+		c.Violate("merge-fault/fault-free-run-failed", "real-table inputs: %v", err)
+		return
+	}
+	victim := r.Intn(nt)
+	dataPath := filepath.Join(dirs[victim], sstables.DataFileName)
+	img, err := os.ReadFile(dataPath)
+	if err != nil {
+		c.Violate("harness/read", "%v", err)
+		return
+	}
+	pf, err := rio.Parse(img)
+	if err != nil {
+		c.Violate("harness/parse", "%v", err)
+		return
+	}
+	cuts := map[int]string{}
+	for i, rec := range pf.Recs {
+		cuts[rec.Start] = fmt.Sprintf("at the boundary before record %d", i)
+		if rec.End()-rec.Start > 4 {
+			cuts[rec.Start+2+r.Intn(rec.End()-rec.Start-3)] = fmt.Sprintf("inside record %d", i)
+		}
+	}
+	units, nt2 := int64(0), int64(0)
+	for cut, what := range cuts {
+		if cut <= 8 && len(pf.Recs) > 0 && cut < pf.Recs[0].Start {
+			continue
+		}
+		_ = os.WriteFile(dataPath, img[:cut], 0644)
+		out, err := run()
+		units++
+		c.Obs("merger_fault_runs", 1)
+		c.Obs("real_table_truncation_runs", 1)
+		if err != nil {
+			nt2++
+			c.Obs("merger_faults_reached", 1)
+			c.Obs("merger_errors_reported", 1)
+			continue
+		}
+		if d := sameKVs(out, base); d != "" {
+			kind := "inside-a-record"
+			if strings.HasPrefix(what, "at the boundary") {
+				kind = "at-a-record-boundary"
+			}
+			c.Violate("merge-fault/absorbed/real-input-data-file-ends-early/"+kind, "MergeCompact over real tables returned nil although the data file of input %d ends %s (cut at %d of %d bytes); output differs from the fault-free output: %s", victim, what, cut, len(img), d)
+			break
+		}
+	}
+	_ = os.WriteFile(dataPath, img, 0644)
+	if nt2 > 0 {
+		c.Nontrivial()
+	}
+	c.SetUnits(units, nt2)
 }
 
 // silence unused import when pq is not otherwise referenced
